@@ -498,6 +498,22 @@ fn thresh_decrypt(plan: &Plan, lib: &dyn Lib, rec: &mut Rec) {
     let sch = scheme_name(scheme);
     let mut dshares = vec![];
     for (i, s) in d.shares.iter().enumerate() {
+        // every participant works on its OWN copy of the ciphertext (decoded from what it received, and — on the alternative
+        // routes of §2.8 — cloned, cloned onto another value, or selected): the copy is the ciphertext
+        if !big || i < 3 {
+            let mine = recode(rec, lib, g, Ty::SignCryptCiphertext, Codec::Bytes, Codec::Bytes, &ct);
+            rec.expect("C12", "decryption-share-created", mine.first() == Some(ct.as_slice()), || format!("own-copy scheme={} g={} | participant {}'s copy of the ciphertext is not the ciphertext ({})", sch, g.name(), i + 1, match &mine { Out::Ok(v) => format!("{} bytes, last byte {:?}", v[0].len(), v[0].last()), o => o.kind().to_string() }));
+            if let Some(m) = mine.first() {
+                if m != ct.as_slice() {
+                    // what the participant then does with its copy
+                    let o = rec.call(lib, g, Op::ScShare, &[m, s]);
+                    if let Some(sh) = o.first() {
+                        let v = rec.call(lib, g, Op::DShareVerify, &[sh, &d.pk_shares[i], &ct]);
+                        rec.expect("C12", "share-verifies-own", v.is_ok(), || format!("own-copy scheme={} g={} | the share participant {} made from its copy does not verify against the ciphertext", sch, g.name(), i + 1));
+                    }
+                }
+            }
+        }
         let o = rec.call(lib, g, Op::ScShare, &[&ct, s]);
         match o.first() {
             Some(b) => dshares.push(b.to_vec()),
